@@ -230,12 +230,12 @@ def build(tier="quick", seed=0):
                     if mdl is None:
                         return False, "no model of the path condition could be produced to instantiate the generated source"
                 n_exec[0] += 1
-                text = mdl.eval(code, model_completion=True).as_string()
-                tname = mdl.eval(nm, model_completion=True).as_string()
+                text = solver.zs(mdl.eval(code, model_completion=True))
+                tname = solver.zs(mdl.eval(nm, model_completion=True))
                 if entry == "avro_schema":
                     tname = None  # derived name: only its shape is checked
                 fl = {"one_field": [fn], "no_field": [], "two_fields": [fn, fn2], "same_field_twice": [fn]}[shape]
-                declared = [mdl.eval(f, model_completion=True).as_string() for f in fl]
+                declared = [solver.zs(mdl.eval(f, model_completion=True)) for f in fl]
                 if entry == "avro_schema":
                     declared = [f for f in declared if not f.startswith("_")]  # schema fields with a leading underscore are metadata and are skipped by the reader
                 complaints = validate_generated_source(text, tname, declared)
